@@ -486,10 +486,28 @@ fn mk_trade(i: usize, id: i64, t: i64, side: Side, p: Decimal, q: Decimal, fee: 
     }
 }
 
-/// A market event for instrument i carrying price `p`:
-///   trade: a public trade at p (f64, as venues deliver it)
-///   l1   : a top-of-book whose volume-weighted mid price is exactly p, in one of three shapes
-fn mk_market(i: usize, kind: &str, t: i64, p: Decimal, variant: u64) -> Mk {
+/// The levels a market event carries: bid (bp, ba) and ask (ap, aa); a public trade, candle or
+/// liquidation carries the price `bp`.
+#[derive(Clone, Copy)]
+struct Lv {
+    bp: Decimal,
+    ba: Decimal,
+    ap: Decimal,
+    aa: Decimal,
+}
+
+impl Lv {
+    fn ints(bp: i64, ba: i64, ap: i64, aa: i64) -> Self {
+        Self { bp: dec(bp), ba: dec(ba), ap: dec(ap), aa: dec(aa) }
+    }
+}
+
+/// A market event for instrument i:
+///   trade: a public trade at lv.bp (f64, as venues deliver it)
+///   l1   : a two-sided top-of-book, bid (bp, ba) / ask (ap, aa) exactly as given - normal, locked
+///          (bp = ap) or crossed (bp > ap), any amounts; its price is the volume-weighted mid
+fn mk_market(i: usize, kind: &str, t: i64, lv: &Lv, variant: u64) -> Mk {
+    let p = lv.bp;
     let data = match kind {
         "trade" => DataKind::Trade(PublicTrade {
             id: format!("m{t}"),
@@ -497,27 +515,18 @@ fn mk_market(i: usize, kind: &str, t: i64, p: Decimal, variant: u64) -> Mk {
             amount: 1.0 + (variant % 3) as f64,
             side: if variant % 2 == 0 { Side::Buy } else { Side::Sell },
         }),
-        "l1" => {
-            let one = Decimal::ONE;
-            // p may be zero or negative (spreads, sub-zero futures): every shape has mid exactly p
-            let (bid, ask) = match variant % 3 {
-                1 => (Level::new(p - one, Decimal::TWO), Level::new(p + one, Decimal::TWO)),
-                // (p-1)*3 + (p+3)*1 = 4p : weighted by the opposite amounts
-                2 => (Level::new(p - one, one), Level::new(p + Decimal::from(3), Decimal::from(3))),
-                _ => (Level::new(p, one), Level::new(p, Decimal::from(5))),
-            };
-            DataKind::OrderBookL1(OrderBookL1 { last_update_time: time(t), best_bid: Some(bid), best_ask: Some(ask) })
-        }
+        "l1" => DataKind::OrderBookL1(OrderBookL1 {
+            last_update_time: time(t),
+            best_bid: Some(Level::new(lv.bp, lv.ba)),
+            best_ask: Some(Level::new(lv.ap, lv.aa)),
+        }),
         // kinds without a price for DefaultInstrumentMarketData: a top-of-book with one side or no side
         // (no mid price; once adopted the price falls back to the last public trade or to none) ...
-        "l1bid" | "l1ask" | "l1none" => {
-            let lvl = Some(Level::new(p, Decimal::from(1 + (variant % 3) as i64)));
-            DataKind::OrderBookL1(OrderBookL1 {
-                last_update_time: time(t),
-                best_bid: if kind == "l1bid" { lvl } else { None },
-                best_ask: if kind == "l1ask" { lvl } else { None },
-            })
-        }
+        "l1bid" | "l1ask" | "l1none" => DataKind::OrderBookL1(OrderBookL1 {
+            last_update_time: time(t),
+            best_bid: (kind == "l1bid").then(|| Level::new(lv.bp, lv.ba)),
+            best_ask: (kind == "l1ask").then(|| Level::new(lv.ap, lv.aa)),
+        }),
         // ... and kinds the default data state ignores
         "candle" => {
             let c = p.to_string().parse::<f64>().unwrap();
@@ -630,8 +639,13 @@ fn replay_step(sut: &mut Sut, i: usize, ev: &Value, k: usize, focus: &str, ep: i
             }
         }
         "Mkt" => {
-            let p = pow10(dec(int_of(&ev["p"], "p")), ep);
-            if let Err(e) = sut.market(i, mk_market(i, s(ev, "kind"), vh::util::i(ev, "t"), p, k as u64)) {
+            let lv = Lv {
+                bp: pow10(dec(vh::util::i(ev, "bp")), ep),
+                ba: dec(vh::util::i(ev, "ba")),
+                ap: pow10(dec(vh::util::i(ev, "ap")), ep),
+                aa: dec(vh::util::i(ev, "aa")),
+            };
+            if let Err(e) = sut.market(i, mk_market(i, s(ev, "kind"), vh::util::i(ev, "t"), &lv, k as u64)) {
                 return Some(Mismatch { class: "panic", error: format!("the call panicked / failed: {e}"), got: Value::Null });
             }
             exit = None;
@@ -761,10 +775,11 @@ fn cmd_replay(a: &Args) {
 // ---------------------------------------------------------------------------------------------
 #[allow(clippy::too_many_arguments)]
 fn trace_line(a: &str, i: usize, side: &str, p: Value, q: i64, fee: i64, id: i64, t: i64, newer: bool, kind: &str,
-              mp: i64, post: Value, exit: Value) -> Value {
-    // p: fill price, or the data-state price read after a market event; mp: the price the market event carried
+              lv: [i64; 4], post: Value, exit: Value) -> Value {
+    // p: fill price, or the data-state price read after a market event; lv: the levels the market event
+    // carried [bid price, bid amount, ask price, ask amount] (whole units; a trade's price is lv[0])
     json!({"a": a, "i": i, "side": side, "p": p, "q": q, "fee": fee, "id": id, "t": t, "newer": newer, "kind": kind,
-           "mp": mp, "post": post, "exit": exit})
+           "mp": lv[0] * 1000, "lv": lv, "post": post, "exit": exit})
 }
 
 /// The recorder shared by `random` and `retrace`: applies one call and writes its line(s).
@@ -777,7 +792,7 @@ struct Recorder {
 impl Recorder {
     fn new(mode: &str, instrs: &[usize], out: &mut Out) -> Self {
         for &i in instrs {
-            out.line(&trace_line("Reset", i, "", json!(0), 0, 0, 0, 0, false, "", 0, milli_pos(None), milli_exit(None)));
+            out.line(&trace_line("Reset", i, "", json!(0), 0, 0, 0, 0, false, "", [0; 4], milli_pos(None), milli_exit(None)));
         }
         Self { sut: Sut::new(mode), tfill: [0; N_INSTR], calls: 0 }
     }
@@ -790,7 +805,7 @@ impl Recorder {
         // a call about instrument i changes no other instrument's position
         for j in 0..N_INSTR {
             if j != i && milli_pos(self.sut.position(j)) != before[j] {
-                out.line(&trace_line("Foreign", j, "", json!(0), 0, 0, 0, t, false, "", 0, milli_pos(self.sut.position(j)), milli_exit(None)));
+                out.line(&trace_line("Foreign", j, "", json!(0), 0, 0, 0, t, false, "", [0; 4], milli_pos(self.sut.position(j)), milli_exit(None)));
             }
         }
     }
@@ -805,7 +820,7 @@ impl Recorder {
             Ok(x) => (milli_pos(self.sut.position(i)), milli_exit(x.as_ref())),
             Err(e) => (json!({"panic": e}), milli_exit(None)),
         };
-        out.line(&trace_line("Fill", i, side_str(side), json!(p * 1000), q * 1000, fee * 1000, id, t, false, "", 0, post, exit));
+        out.line(&trace_line("Fill", i, side_str(side), json!(p * 1000), q * 1000, fee * 1000, id, t, false, "", [0; 4], post, exit));
         self.isolation(i, t, &before, out);
     }
 
@@ -818,15 +833,15 @@ impl Recorder {
                 Ok(()) => milli_pos(self.sut.position(i)),
                 Err(e) => json!({"panic": e}),
             };
-            out.line(&trace_line("Persist", i, "", json!(0), 0, 0, 0, t, false, "", 0, post, milli_exit(None)));
+            out.line(&trace_line("Persist", i, "", json!(0), 0, 0, 0, t, false, "", [0; 4], post, milli_exit(None)));
         }
     }
 
     /// returns the kind of line written ("Mark" | "Quiet")
-    fn market(&mut self, i: usize, kind: &str, t: i64, mp: i64, variant: u64, out: &mut Out) -> &'static str {
+    fn market(&mut self, i: usize, kind: &str, t: i64, lv: [i64; 4], variant: u64, out: &mut Out) -> &'static str {
         let before = self.before();
         self.calls += 1;
-        let r = self.sut.market(i, mk_market(i, kind, t, dec(mp), variant));
+        let r = self.sut.market(i, mk_market(i, kind, t, &Lv::ints(lv[0], lv[1], lv[2], lv[3]), variant));
         let price = self.sut.price(i);
         let open = self.sut.position(i).is_some();
         let (act, pj) = match price {
@@ -837,7 +852,7 @@ impl Recorder {
             Ok(()) => milli_pos(self.sut.position(i)),
             Err(e) => json!({"panic": e}),
         };
-        out.line(&trace_line(act, i, "", pj, 0, 0, 0, t, t > self.tfill[i], kind, mp * 1000, post, milli_exit(None)));
+        out.line(&trace_line(act, i, "", pj, 0, 0, 0, t, t > self.tfill[i], kind, lv, post, milli_exit(None)));
         self.isolation(i, t, &before, out);
         act
     }
@@ -879,7 +894,7 @@ fn cmd_random(a: &Args) {
                 *arms.entry("Persist".into()).or_default() += 1;
             } else if rng.random_range(0..5) < 2 && nfill[i] < 4 {
                 let side = if rng.random_bool(0.5) { Side::Buy } else { Side::Sell };
-                let (mut p, q, fee) = (rng.random_range(1..=20i64), rng.random_range(1..=4i64), rng.random_range(0..=2i64));
+                let (mut p, q, fee) = (rng.random_range(1..=20i64), rng.random_range(1..=4i64), rng.random_range(-2..=2i64)); // fees: rebates too
                 {
                     // a fill at a zero / negative price only where it increases or reduces the open position;
                     // never let the average entry price become exactly 0 (see Gen_Position.tla, SafePrice)
@@ -910,8 +925,17 @@ fn cmd_random(a: &Args) {
                     [rng.random_range(0..11)];
                 let newer = t > rec.tfill[i];
                 // market prices include zero and negative ones ("any market event that yields a price")
-                let mp = if rng.random_range(0..4) == 0 { rng.random_range(-5..=0i64) } else { rng.random_range(1..=20i64) };
-                let act = rec.market(i, kind, t, mp, k as u64 + seed, &mut out);
+                let price = |rng: &mut rand::rngs::StdRng| {
+                    if rng.random_range(0..4) == 0 { rng.random_range(-5..=0i64) } else { rng.random_range(1..=20i64) }
+                };
+                // two-sided books of every shape: normal, locked (every 5th) and crossed; unequal amounts whose
+                // sum keeps the volume-weighted mid exact in milli-units (2, 4, 5, 8, 10)
+                let (bp, mut ap) = (price(&mut rng), price(&mut rng));
+                if rng.random_range(0..5) == 0 {
+                    ap = bp;
+                }
+                let (ba, aa) = [(1, 1), (1, 3), (3, 1), (1, 4), (4, 1), (2, 3), (3, 2), (3, 5), (5, 3), (1, 9), (7, 3)][rng.random_range(0..11)];
+                let act = rec.market(i, kind, t, [bp, ba, ap, aa], k as u64 + seed, &mut out);
                 *arms.entry(format!("{act}/{kind}/{}", if newer { "newer" } else { "stale" })).or_default() += 1;
             }
             done += 1;
@@ -939,7 +963,9 @@ fn cmd_retrace(a: &Args) {
                 rec.fill(inst, i(l, "id"), i(l, "t"), side, i(l, "p") / 1000, i(l, "q") / 1000, i(l, "fee") / 1000, &mut out);
             }
             "Mark" | "Quiet" => {
-                rec.market(inst, s(l, "kind"), i(l, "t"), i(l, "mp") / 1000, k as u64, &mut out);
+                let lv: Vec<i64> = l["lv"].as_array().map(|a| a.iter().map(|x| x.as_i64().unwrap_or(0)).collect()).unwrap_or_default();
+                let lv = if lv.len() == 4 { [lv[0], lv[1], lv[2], lv[3]] } else { [i(l, "mp") / 1000, 1, i(l, "mp") / 1000, 1] };
+                rec.market(inst, s(l, "kind"), i(l, "t"), lv, k as u64, &mut out);
             }
             // one store / restore produced a Persist line per traced instrument: redo it once
             "Persist" if k == 0 || s(&lines[k - 1], "a") != "Persist" => rec.persist(&instrs, i(l, "t"), &mut out),
